@@ -13,6 +13,42 @@ RULE = ("accepted connected graphs with 1..3 (quick) / 1..4 (thorough) loops, mi
 ASSUMPTIONS = ["sector formula compared at 1e-12 E relative; normalisation at 1e-11; maximal monomials at 16 ulp"]
 
 
+def definition_audit(c, ext_vertices, sup, x):
+    """None if the index sets agree, else a short description"""
+    edges, n, table = c["edges"], len(c["edges"]), c["table"]
+    full = (1 << n) - 1
+    L = table[full][0]
+    pc = lambda m: bin(m).count("1")
+    cot = [C for C in range(1 << n) if pc(C) == L and table[full & ~C][0] == 0]
+    if len(cot) != sup["ntrees"]:
+        return f"{len(cot)} cotrees, {sup['ntrees']} spanning trees"
+    def mono(C):
+        v = Fraction(1)
+        for e in range(n):
+            if C >> e & 1:
+                v *= x[e]
+        return v
+    if sorted(mono(C) for C in cot) != sorted(sup["Umon"]):
+        return "cotree monomials differ from the spanning-tree monomials of U"
+    def split(mask):
+        uf = oracle.UF()
+        for e in range(n):
+            if mask >> e & 1:
+                uf.union(edges[e][0], edges[e][1])
+        return len(set(uf.find(v) for v in ext_vertices)) >= 2
+    keys = set()
+    for C in cot:
+        for e in range(n):
+            if c["massive"][e]:
+                keys.add(tuple((1 if C >> i & 1 else 0) + (1 if i == e else 0) for i in range(n)))
+    for C in range(1 << n):
+        if pc(C) == L + 1 and table[full & ~C][0] == 0 and split(full & ~C):
+            keys.add(tuple(1 if C >> i & 1 else 0 for i in range(n)))
+    if keys != set(sup["Fmon"].keys()):
+        return f"F: {len(keys)} monomials by the definitions, {len(sup['Fmon'])} by the 2-forest enumeration"
+    return None
+
+
 def run(ctx):
     from mpmath import mp, mpf
     mp.dps = 40
@@ -105,6 +141,16 @@ def run(ctx):
         if gen_mom:
             tot = sum(p[0] for p in gen_mom.values()); k0 = sorted(gen_mom)[0]; gen_mom[k0] = [gen_mom[k0][0] - tot]
         sup = kin.symanzik(c["edges"], xpre, gen_mom, [Fraction(1) if m else Fraction(0) for m in c["massive"]], 1)
+        # supporting test of the DEFINITIONS the Lean theorems of C07Greedy/C07Forest/C07Attain are stated with: cotrees (loops(S-C) = 0,
+        # |C| = L) are the complements of the spanning trees the oracle enumerates, and mass terms + complements of 2-forests separating two
+        # external vertices are exactly the monomials of F with a non-zero coefficient for generic momenta
+        akey = (tuple(c["edges"]), tuple(c["massive"]), tuple(sorted(gen_mom)))
+        if n <= 8 and akey not in ctx.extra.setdefault("_defaudit", set()):
+            ctx.extra["_defaudit"].add(akey)
+            ctx.count("definition_audit")
+            bad = definition_audit(c, sorted(gen_mom), sup, xpre)
+            if bad:
+                ctx.mismatch("definitions used by the Lean theorems (Cotree / Split) vs the oracle's spanning trees and 2-forests", S.small_req(s), bad, None, bad)
         if not sup["Fmon"]:
             ctx.count("F_without_monomials_skipped"); continue
         Utr = max(sup["Umon"]); Ftr = max(val for _, val in sup["Fmon"].values()); Vtr = Ftr / Utr
